@@ -268,6 +268,8 @@ class Interp:
         self.functions_entered = {}     # spec -> info (for evidence)
         self.loop_hooks = {}            # (spec, ordinal) -> hook
         self._ifunc_cache = {}
+        self.native_prefixes = []
+        self.native_used = set()
 
     # ------------------------------------------------------------------ API
     def call_spec(self, spec, *args, **kwargs):
@@ -322,6 +324,16 @@ class Interp:
                                           {"path": info["path"], "lines": [seg_first, seg_last]})
         self._ifunc_cache[key] = f
         return f
+
+    def _is_native(self, fn):
+        """repo functions declared outside the state under contract (progress bars, timing, option
+        parsing): executed by the real interpreter, not symbolically (listed in the evidence)"""
+        q = "%s:%s" % (getattr(fn, '__module__', ''), getattr(fn, '__qualname__', ''))
+        for p in self.native_prefixes:
+            if q.startswith(p):
+                self.native_used.add(p)
+                return True
+        return False
 
     def is_repo_callable(self, fn):
         return isinstance(fn, types.FunctionType) and (fn.__module__ or "").startswith(self.repo_prefix)
@@ -407,14 +419,18 @@ class Interp:
         if isinstance(fn, types.MethodType):
             # bound method of a real object
             f0 = fn.__func__
-            if self.is_repo_callable(f0):
+            if self.is_repo_callable(f0) and not self._is_native(f0):
                 return self.call(self.ifunc_from_real(f0), [fn.__self__] + list(args), kwargs)
+        if self.is_repo_callable(fn) and self._is_native(fn):
+            return self.call_real(fn, args, kwargs)
         if self.is_repo_callable(fn):
             key = "%s:%s" % (fn.__module__, fn.__qualname__)
             if key in self.modular and key in self.contracts:
                 return self.contracts[key](self, *args, **kwargs)
             return self.call(self.ifunc_from_real(fn), args, kwargs)
         if self.is_repo_class(fn):
+            if self._is_native(fn):
+                return self.call_real(fn, args, kwargs)
             return self.instantiate(fn, args, kwargs)
         if type(fn).__name__ == 'DUFunc' and hasattr(fn, '_dispatcher') and \
                 self.is_repo_callable(fn._dispatcher.py_func):
